@@ -13,8 +13,9 @@ import DL.Model.CF
 * `try/catch/finally` per ECMA-262 §14.15: the handler runs iff the block may throw, the finalizer runs after any
   completion and overrides it when it completes abruptly.
 
-Both are structural, executable computations: they are the exact closed form of the inductive big-step relation
-`Exec` (`DL.Lemmas.CFExec` proves soundness and completeness on the loop-free core and the loop unfolding lemma).
+Both are structural, executable computations and are *the definition* of the reference semantics used by the theorems
+and by the search oracles (an inductive big-step relation `Exec` with an exactness proof was planned and not built; the
+closed forms are what a reader has to audit).
 -/
 namespace DL.CF
 
